@@ -25,7 +25,7 @@ from . import common
 RULE = ("qgen queries (all shapes, including those of known value findings) + metadata-heavy queries (inject_code, C++ functions, declared collections, job scripts) x 3 backends in equal volume; "
         "every accepted translation is checked for completeness, compiled, and its minted identifiers audited; distinct = distinct (backend, operator multiset); non-trivial = at least 2 operators")
 ASSUME = ["the compiler is the judge of 'well-formed against the data model as declared'; templates are compiled against the model framework shells, not the real AnalysisBase/CMSSW headers",
-          "shadow/uninitialized diagnostics are only charged to the translator when they name a translator-minted identifier"]
+          "shadow diagnostics are only charged to the translator when they name a translator-minted identifier; a static 'uninitialized' diagnostic sends the job to valgrind memcheck, which decides"]
 
 EXPECTED_FILES = {"atlas": ["ATestRun_eljob.py", "package_CMakeLists.txt", "query.cxx", "query.h", "runner.sh"],
                   "cms_aod": ["analyzer_cfg.py", "Analyzer.cc", "BuildFile.xml", "copy_root_tree.C", "runner.sh"],
@@ -234,7 +234,10 @@ def run(ctx: Ctx) -> int:
             evf = jobdir / "ev.txt"
             evf.write_text(edm.serialize_events(model.schema, case.events))
             out["run"] = cxx.run_job(b["exe"], str(evf), len(case.events))
-            if vg_budget[0] > 0:
+            # a static "uninitialized" diagnostic is only a suspicion (constant-folded dead branches make clang report reads
+            # that a preceding throw makes unreachable): the dynamic oracle - memcheck on the real events - decides
+            suspicious = any("uninitialized" in d for d in diags)
+            if vg_budget[0] > 0 or suspicious:
                 vg_budget[0] -= 1
                 b2 = cxx.build_job(model, pkg, jobdir / "vg", sanitize=False)
                 if b2["ok"]:
@@ -267,8 +270,13 @@ def run(ctx: Ctx) -> int:
             why = "identifier monitor: " + r["audit"]
         elif r.get("diags"):
             minted_pat = re.compile(r"'(i_obj\d+|aggResult\d+|is_first\d+|bool_op\d+|if_else_result\d+|ntuple\d+|begin\d+|end\d+|r_obj\d+|_\w+\d+|\w+\d+)'")
-            mine = [d for d in r["diags"] if minted_pat.search(d)]
-            if mine:
+            mine = [d for d in r["diags"] if minted_pat.search(d) and "uninitialized" not in d]
+            if any("uninitialized" in d for d in r["diags"]):
+                ctx.count("static_uninitialized_suspicions_sent_to_memcheck")
+            if r.get("valgrind") and r["valgrind"]["rc"] == 77 and r["valgrind"]["err"]:
+                kind = "valgrind"
+                why = f"valgrind: {r['valgrind']['err'][0]}"
+            elif mine:
                 kind = "diag"
                 why = f"compiler diagnostic on a translator-minted identifier: {mine[0][-200:]}"
         elif r.get("valgrind") and r["valgrind"]["rc"] == 77 and r["valgrind"]["err"]:
